@@ -42,7 +42,7 @@ def smearingDos {β : Type} [Add β] [Sub β] [Mul β] [Div β] [OfNat β 0] (nq
 
 /-- `np.arange(start, stop, step)` on rationals: `ceil((stop - start) / step)` points `start + i·step` -/
 def arange (start stop step : Rat) : List Rat :=
-  let n := ((stop - start) / step).ceil.toNat
+  let n := (-((-((stop - start) / step)).floor)).toNat  -- ceil x = -floor (-x)
   (List.range n).map fun (i : Nat) => start + ((i : Nat) : Rat) * step
 
 /-- `Dos.__init__` + `set_draw_area`: `lo`, `hi` are the extreme frequencies of the mesh; `sigma = None` ↦
